@@ -394,3 +394,11 @@ fn test_parse_empty_domain() {
     let mut pkt = PktParser::new(&[0x00]);
     assert_eq!(pkt.get_domain().unwrap(), dnspkt::Domain::from(vec![]));
 }
+
+#[cfg(erbium_verif)]
+impl<'l> PktParser<'l> {
+    /// Verification hook: start decoding at an arbitrary offset.
+    pub fn verif_seek(&mut self, offset: usize) {
+        self.offset = offset;
+    }
+}
